@@ -167,6 +167,15 @@ def run(tier, rep, ev):
         dest = ["abs", "none", "rel"][k % 3]
         cases.append({"entries": arc, "dest": dest, "via": "path" if k % 2 else "stream", "root": os.path.join(base, f"r{k}"),
                       "prepopulate": ["a/old.txt"] if k % 11 == 0 and not any(e["name"] == ["a"] for e in arc) else []})
+    # names that are lexically inside but walk through an outside directory on the way ('../a/../J/x' with J the destination's own
+    # name): every destination mode, by path and by stream
+    D = lambda n: {"name": n, "kind": "dir", "tgt": []}          # noqa: E731
+    for arc in ([D(["..", "a", "..", "J"])], [F(["..", "a", "..", "J", "f"])], [D([".", "a"]), D(["..", "a", "..", "J"])],
+                [F(["b", "..", "..", "new", "..", "J", "c", "f"])], [L(["..", "q", "..", "J", "l"], ["."]), F(["l", "g"])],
+                [D(["..", "Jx", "..", "J", "d"]), F(["..", "O", "..", "J", "d", "f"])]):
+        for dest in ("abs", "none", "rel"):
+            for via in ("path", "stream"):
+                cases.append({"entries": arc, "dest": dest, "via": via, "root": os.path.join(base, f"r{len(cases)}"), "prepopulate": []})
     outs = sandbox.run_cases(execute, cases, timeout=30, nproc=16)
     traces, origins = [], []
     for c, o in zip(cases, outs):
